@@ -4,7 +4,9 @@ import os
 from nvlib import engine as E
 from nvlib.check import Prop
 
-DELAYS = [(-5, 1), (0, 2), (1, 8), (2, 6), (3, 4), (5, 3), (7, 2), (30, 2), (31, 4), (32, 8), (33, 4), (34, 1),
+BIG = 4294967296
+DELAYS = [(2147483647, 1), (2147483648, 1), (BIG - 1, 1), (BIG + 5, 1), (3 * BIG + 37, 1),
+          (-5, 1), (0, 2), (1, 8), (2, 6), (3, 4), (5, 3), (7, 2), (30, 2), (31, 4), (32, 8), (33, 4), (34, 1),
           (63, 2), (64, 5), (65, 2), (96, 2), (100, 1), (1000, 1)]
 ADV = [(0, 2), (1, 10), (2, 5), (3, 3), (5, 2), (31, 2), (32, 3), (33, 2), (64, 2), (70, 1), (200, 1)]
 
@@ -12,7 +14,7 @@ ADV = [(0, 2), (1, 10), (2, 5), (3, 3), (5, 2), (31, 2), (32, 3), (33, 2), (64, 
 class C10(Prop):
     id = "C10"
     title = "call_out fires exactly once, on time, and can be cancelled"
-    lean_modules = ["NV.C10.Props"]
+    lean_modules = ["NV.C10.Props", "NV.C10.PropsNeg"]
     theorems = ["NV.C10.N_pow2",
                 "NV.C10.tie_clampDelay",
                 "NV.C10.tie_initCot",
@@ -25,6 +27,15 @@ class C10(Prop):
                 "NV.C10.tie_sweepOrder",
                 "NV.C10.tie_sweepSlot",
                 "NV.C10.tie_sweepCond",
+                "NV.C10.tie_insertBefore",
+                "NV.C10.tie_headDue",
+                "NV.C10.tie_nextDue",
+                "NV.C10.tie_handleSlot",
+                "NV.C10.tie_efunResult",
+                "NV.C10.reloadObj_ok",
+                "NV.C10.sim_reload",
+                "NV.C10.first_is_earliest",
+                "NV.C10.efun_pend",
                 "NV.C10.newCallOut_fst",
                 "NV.C10.newCallOut_snd",
                 "NV.C10.sweepSecond_eq",
@@ -109,12 +120,17 @@ class C10(Prop):
                   "2^26 call_outs are not modelled (side condition of NV.C10.handles_fit_int); top theorem "
                   "NV.C10.model_satisfies_spec: the oracle accepts every history of the model, for all scripts and commands")
     rule = ("cases = corpus + known-finding inputs + boundary list + seeded random histories of "
-            "call_out/remove/find (by name and handle)/remove-all/destruct/error at top level and inside call_out "
-            "callbacks, delays on both sides of the wheel size, tick spacings 0..200 incl. backlog; a case is "
+            "call_out (string and function pointer, with and without this_player)/remove/find (by name and handle)/"
+            "remove-all/reload_object/call_out_info/mud_status usage/destruct/error at top level and inside call_out "
+            "callbacks, delays < 1, on both sides of the wheel size, = wheel size, >= 2^31 and >= 2^32, tick spacings "
+            "0..200 incl. backlog; the branch histogram of the run is in coverage.histogram; a case is "
             "non-trivial when its trace has >= 2 lines; distinct = distinct canonical implementation trace")
     not_covered = ["the O_LISTENER branch of call_out() (the flag is never set in this driver: dead code)",
                    "reload_object (= remove_all_call_out + variable reset) is exercised only through remove_call_out()",
-                   "int overflow of the handle after 2^26 call_outs"]
+                   "int overflow of the handle after 2^26 call_outs (undefined behaviour; bound in handles_fit_int)",
+                   "print_call_out_usage / num_call and the free list: compared with the model, no oracle clause",
+                   "f_call_out by a destructed current_object (modelled, never reached by the harness objects)",
+                   "see notes/C10-coverage.md for the full map"]
 
     def gen_extra(self, ctx, bdir):
         from props import c10_extract
@@ -190,6 +206,41 @@ class C10(Prop):
                                            "adv 1", "sweep", "adv 1", "sweep"], nobj=3)
         mk("giver-restored-after-sweep", ["gop o2 o1 co,0,1,a", "adv 1", "sweep", "vapply o1 do_op co,1,1,b",
                                           "gop o3 o1 co,2,1,c", "adv 1", "sweep"], nobj=3)
+        # reload_object: call_outs dropped, handles forgotten, scripts survive (they live in /c10/reg)
+        mk("reload", ["vapply o1 set_script co:c co,0,1,d", "vapply o1 do_op co,0,2,a", "vapply o1 do_op cofp,1,40,b",
+                      "vapply o2 do_op co,0,2,x", "vapply o1 do_op usage", "vapply o1 do_op reload", "vapply o1 do_op usage",
+                      "vapply o1 do_op fh,a", "vapply o1 do_op info", "vapply o1 do_op co,2,1,c", "adv 2", "sweep", "adv 1", "sweep"])
+        mk("reload-in-callback", ["vapply o1 set_script co:a reload;fh,b;co,3,1,z", "vapply o1 do_op co,1,1,b",
+                                  "vapply o1 do_op co,0,1,a", "vapply o1 do_op co,2,5,c", "adv 1", "sweep", "adv 5", "sweep"])
+        # print_call_out_usage: chunks of CHUNK_SIZE structures, one more chunk when the 21st is needed, also from a callback
+        mk("usage-chunks", ["vapply o1 do_op usage"] + ["vapply o1 do_op co,0,%d,t%d" % (i % 7 + 1, i) for i in range(20)] +
+           ["vapply o1 do_op usage", "vapply o1 set_script co:t0 usage;co,1,3,n1;usage;co,1,3,n2;usage", "adv 1", "sweep",
+            "vapply o1 do_op usage", "adv 9", "sweep", "vapply o1 do_op usage"])
+        mk("usage-second-chunk", ["vapply o1 do_op co,%d,%d,u%d" % (i % 4, 40 + i, i) for i in range(25)] +
+           ["vapply o1 do_op usage", "vapply o1 do_op rmall", "vapply o1 do_op usage", "vapply o1 do_op co,0,1,z",
+            "vapply o1 do_op usage"])
+        # 20 structures, all pending; in the first callback 19 are pending and one is being executed (not yet freed):
+        # the next new_call_out must allocate a second chunk
+        mk("usage-busy-structure", ["vapply o1 set_script co:v19 usage;co,1,5,w1;usage;co,1,5,w2;usage"] +
+           ["vapply o1 do_op co,0,1,v%d" % i for i in range(20)] + ["vapply o1 do_op usage", "adv 1", "sweep",
+                                                                    "vapply o1 do_op usage"])
+        # a structure must come back to the free list also when the callback raises an error / the owner is destructed
+        mk("usage-after-errors", ["vapply o1 set_script co:e%d err" % i for i in range(12)] +
+           ["vapply o1 do_op co,0,1,e%d" % i for i in range(12)] + ["vapply o2 do_op co,1,1,x%d" % i for i in range(6)] +
+           ["vapply o1 do_op dest,o2", "vapply o1 do_op usage", "adv 1", "sweep", "vapply o1 do_op usage"] +
+           ["vapply o1 do_op cofp,2,9,y%d" % i for i in range(20)] + ["vapply o1 do_op usage"])
+        # remove_all_call_out also sweeps the call_outs of destructed objects (visible in the current length only)
+        mk("rmall-sweeps-destructed", ["vapply o2 do_op co,0,9,a", "vapply o2 do_op cofp,1,9,b", "vapply o1 do_op co,0,9,c",
+                                       "vapply o1 do_op dest,o2", "vapply o1 do_op usage", "vapply o3 do_op rmall",
+                                       "vapply o1 do_op usage", "vapply o1 do_op info"], nobj=3)
+        # (int) conversion of the time left: delays of 2^31 seconds and more
+        mk("int-conversion", ["vapply o1 do_op co,0,2147483647,a", "vapply o1 do_op co,1,2147483648,b",
+                              "vapply o1 do_op co,2,4294967301,c", "vapply o1 do_op fh,a", "vapply o1 do_op fh,b",
+                              "vapply o1 do_op fh,c", "vapply o1 do_op fn,2", "vapply o1 do_op info", "vapply o1 do_op rmn,1",
+                              "vapply o1 do_op rmh,c", "adv 5", "sweep"])
+        mk("int-conversion-same-answer", ["vapply o1 do_op co,1,7,a", "vapply o1 do_op co,1,4294967303,b", "vapply o1 do_op fn,1",
+                                          "vapply o1 do_op rmn,1", "vapply o1 do_op fh,a", "vapply o1 do_op fh,b",
+                                          "vapply o1 do_op rmn,1", "vapply o1 do_op info"])
         mk("reschedule-chain", ["vapply o1 set_script co:a co,0,1,b", "vapply o1 set_script co:b co,0,32,c",
                                 "vapply o1 set_script co:c co,0,31,d", "vapply o1 do_op co,0,1,a", "adv 1", "sweep",
                                 "adv 1", "sweep", "adv 32", "sweep", "adv 31", "sweep"])
@@ -199,14 +250,16 @@ class C10(Prop):
         """ops performed by `self_obj`; st tracks tags; returns list of op strings and registers scripts"""
         ops = []
         for _ in range(n):
-            k = rng.weighted([("co", 8), ("cofp", 4), ("rmh", 3), ("rmn", 2), ("fh", 3), ("fn", 2), ("rmall", 1),
+            k = rng.weighted([("co", 8), ("cofp", 4), ("reload", 1), ("usage", 2), ("rmh", 3), ("rmn", 2), ("fh", 3), ("fn", 2), ("rmall", 1),
                               ("dest", 1), ("err", 1), ("info", 2)])
             if k in ("co", "cofp"):
                 st["tag"] += 1
                 tag = "t%d" % st["tag"]
                 st["tags"].setdefault(self_obj, []).append(tag)
                 d = rng.weighted(DELAYS)
-                ops.append("%s,%d,%d,%s" % (k, rng.below(4), d, tag))
+                f = rng.below(4)
+                st["fns"].setdefault(self_obj, []).append(f)
+                ops.append("%s,%d,%d,%s" % (k, f, d, tag))
                 if depth < 3 and rng.chance(2, 5):
                     sub = self.gen_ops(rng, st, self_obj, depth + 1, rng.range(1, 3))
                     st["scripts"].append("vapply o%d set_script co:%s %s" % (self_obj, tag, ";".join(sub)))
@@ -215,7 +268,8 @@ class C10(Prop):
                 tag = rng.choice(tags) if tags and rng.chance(9, 10) else "nosuch"
                 ops.append("%s,%s" % (k, tag))
             elif k in ("rmn", "fn"):
-                ops.append("%s,%d" % (k, rng.below(4)))
+                fns = st["fns"].get(self_obj, [])
+                ops.append("%s,%d" % (k, rng.choice(fns) if fns and rng.chance(3, 4) else rng.below(4)))
             elif k == "dest":
                 ops.append("dest,o%d" % rng.range(1, st["nobj"]))
             else:
@@ -224,7 +278,7 @@ class C10(Prop):
 
     def gen_case(self, rng, cid):
         nobj = rng.range(1, 4)
-        st = {"tag": 0, "tags": {}, "scripts": [], "nobj": nobj}
+        st = {"tag": 0, "tags": {}, "fns": {}, "scripts": [], "nobj": nobj}
         body = []
         for _ in range(rng.range(4, 30)):
             k = rng.weighted([("op", 10), ("adv", 5), ("sweep", 5), ("tick", 4)])
@@ -253,30 +307,108 @@ class C10(Prop):
         return [self.gen_case(rng, "g%d" % i) for i in range(n)]
 
     def histogram(self, cases, impl):
-        h = {"fp_schedules": 0, "fp_owner_destructed": 0, "fires": 0, "removes_hit": 0, "removes_miss": 0, "finds": 0, "errors": 0, "dests": 0, "ticks": 0,
-             "in_callback_schedules": 0}
+        """branch histogram of a run (generator audit): which mechanisms of call_out.c the cases reached"""
+        keys = ["co", "cofp", "co_by_destructed", "co_with_player", "delay_lt1", "delay_lt_wheel", "delay_eq_wheel",
+                "delay_gt_wheel", "delay_ge_2^31", "fires", "fires_with_player", "fp_owner_destructed",
+                "rmh_hit", "rmh_miss", "rmn_hit", "rmn_miss", "fh_hit", "fh_miss", "fn_hit", "fn_miss",
+                "answer_negative_overdue", "answer_int_converted", "rmall", "reload", "usage", "usage_second_chunk",
+                "info", "info_rows", "info_fp_rows", "dest", "errors", "ticks", "ticks_spacing0", "ticks_backlog",
+                "ticks_firing_2plus", "in_callback_co", "in_callback_co_into_swept_slot", "in_callback_remove_hit",
+                "in_callback_reload_or_rmall", "in_callback_dest", "op_on_destructed", "gop"]
+        h = dict((k, 0) for k in keys)
         for c in cases:
+            h["gop"] += sum(1 for l in c.lines if l.startswith("gop "))
+            last_tick = None
+            in_cb = False
+            fires_this_tick = 0
+            tick_t = 0
             for l in impl.get(c.id, []):
                 t = l.split()
-                if len(t) > 2 and t[2] == "cofp":
-                    h["fp_schedules"] += 1
-                elif l.startswith("err *fp-owner"):
+                if not t:
+                    continue
+                if l.startswith("err *fp-owner"):
                     h["fp_owner_destructed"] += 1
-                elif len(t) > 1 and t[1] == "fire":
-                    h["fires"] += 1
-                elif len(t) > 2 and t[2] in ("rmh", "rmn"):
-                    h["removes_hit" if t[-1] != "-1" else "removes_miss"] += 1
-                elif len(t) > 2 and t[2] in ("fh", "fn"):
-                    h["finds"] += 1
-                elif t and t[0] == "err":
+                    continue
+                if t[0] == "err":
                     h["errors"] += 1
-                elif len(t) > 2 and t[2] == "dest":
-                    h["dests"] += 1
-                elif len(t) > 1 and t[1] == "tickend":
+                    continue
+                if len(t) > 2 and t[0] == "r" and t[-1] == "!destructed":
+                    h["op_on_destructed"] += 1
+                    continue
+                if len(t) < 2:
+                    continue
+                if t[1] == "tickbegin":
                     h["ticks"] += 1
-            for l in c.lines:
-                if "set_script" in l:
-                    h["in_callback_schedules"] += l.count("co,") + l.count("cofp,")
+                    now = int(t[0])
+                    if last_tick is not None:
+                        if now == last_tick:
+                            h["ticks_spacing0"] += 1
+                        elif now - last_tick > 1:
+                            h["ticks_backlog"] += 1
+                    last_tick = now
+                    tick_t = now
+                    fires_this_tick = 0
+                    in_cb = False
+                elif t[1] == "tickend":
+                    if fires_this_tick >= 2:
+                        h["ticks_firing_2plus"] += 1
+                    in_cb = False
+                elif t[1] == "fire":
+                    h["fires"] += 1
+                    fires_this_tick += 1
+                    in_cb = True
+                    if t[-1] != "-":
+                        h["fires_with_player"] += 1
+                elif t[1] == "r" and len(t) > 2:
+                    k = t[2]
+                    if k in ("co", "cofp"):
+                        h[k] += 1
+                        d = int(t[5])
+                        hd = int(t[7])
+                        if hd == 0:
+                            h["co_by_destructed"] += 1
+                        if t[8] != "-":
+                            h["co_with_player"] += 1
+                        if d < 1:
+                            h["delay_lt1"] += 1
+                        elif d < 32:
+                            h["delay_lt_wheel"] += 1
+                        elif d == 32:
+                            h["delay_eq_wheel"] += 1
+                        elif d < 2 ** 31:
+                            h["delay_gt_wheel"] += 1
+                        else:
+                            h["delay_ge_2^31"] += 1
+                        if in_cb:
+                            h["in_callback_co"] += 1
+                            if hd and max(d, 1) % 32 == 0:
+                                h["in_callback_co_into_swept_slot"] += 1
+                    elif k in ("rmh", "rmn", "fh", "fn"):
+                        r = int(t[-1])
+                        hit = r != -1
+                        h["%s_%s" % (k, "hit" if hit else "miss")] += 1
+                        if r < -1 and r > -2 ** 30:
+                            h["answer_negative_overdue"] += 1
+                        if abs(r) >= 2 ** 30:
+                            h["answer_int_converted"] += 1
+                        if in_cb and hit and k in ("rmh", "rmn"):
+                            h["in_callback_remove_hit"] += 1
+                    elif k in ("rmall", "reload"):
+                        h[k] += 1
+                        if in_cb:
+                            h["in_callback_reload_or_rmall"] += 1
+                    elif k == "usage":
+                        h["usage"] += 1
+                        if int(t[3]) > 20:
+                            h["usage_second_chunk"] += 1
+                    elif k == "info":
+                        h["info"] += 1
+                        h["info_rows"] += len(t) - 3
+                        h["info_fp_rows"] += sum(1 for x in t[3:] if "<function>" in x)
+                    elif k == "dest":
+                        h["dest"] += 1
+                        if in_cb:
+                            h["in_callback_dest"] += 1
         return h
 
 
